@@ -13,7 +13,7 @@ CHECKS["C20"] = {
   "engine": "E3-tlc-conformance",
   "technique": "TLC explicit-state model checking of tla/AppLifecycle.tla + conformance replay of every model-enabled core call sequence (simulation over the dumped state graph) on the real wrapper classes with a gated fake executable",
   "ref": "DESIGN.md section 4 C20",
-  "text": "TLC explores the life-cycle model completely (all tool behaviours; invariants: clean-up exactly once at run end, nothing left behind, results only after a good run). Every sequence of core calls (start/join/join(timeout)/cancel/get_app_state/release) of length <= 4 (quick) / 5-6 (thorough) that the model enables is replayed on 6 wrapper classes x up to 7 tool behaviours; after each step the observation (outcome class, stored flag, clean-up count, temp files, child liveness, cwd) must match a model successor, and all 12 probe (getter/setter) transitions are checked at every visited state. Results of successful runs are compared with the fake tool's output for every small input set. The generic Application.join()/cancel()/get_app_state() that WebApp and user-defined applications inherit is explored separately: every sequence of 8 operations (start, release, tick, join, join(timeout), cancel, get_app_state, get_result) up to depth 5 (quick) / 7 (thorough) on a pure-Python Application whose job and clock are owned by the harness, against a reference life-cycle model.",
+  "text": "TLC explores the life-cycle model completely (all tool behaviours; invariants: clean-up exactly once at run end, nothing left behind, results only after a good run). Every sequence of core calls (start/join/join(timeout)/cancel/get_app_state/release) of length <= 4 (quick) / 5-6 (thorough) that the model enables - and, for every sequence containing join(timeout), its twin with join(timeout=0) - is replayed on 6 wrapper classes x up to 8 tool behaviours (incl. a tool killed by a signal after writing its output); after each step the observation (outcome class, stored flag, clean-up count, temp files, child liveness, cwd) must match a model successor, and all 12 probe (getter/setter) transitions are checked at every visited state. Results of successful runs are compared with the fake tool's output for every small input set. The generic Application.join()/cancel()/get_app_state() that WebApp and user-defined applications inherit is explored separately: every sequence of 9 operations (start, release, tick, join, join(timeout), join(timeout=0), cancel, get_app_state, get_result) up to depth 5 (quick) / 7 (thorough) on a pure-Python Application whose job and clock are owned by the harness, against a reference life-cycle model.",
   "note": "Trusts the TLA+ model as the reading of the documented life cycle, the deterministic fake tool, and /proc for child liveness; real tools and OS-level races are outside. For the LocalApp wrappers time enters only through join(timeout=0.05 s) against a child provably blocked on a gate file; the generic Application.join() is explored with a virtual clock owned by the harness (family generic).",
 }
 CHECKS["C01"] = {
